@@ -200,7 +200,7 @@ def finish(ctx, replay_prefix=None):
         new.append(v)
     for fid, (e, k) in sorted(seen_known.items()):
         print("KNOWN-FINDING: property=%s %s [%s; %d case(s) this run]" % (prop, e['what'], fid, k))
-    rdir = os.path.join(VERIF, 'replays')
+    rdir = os.path.join(VERIF, 'replays') if os.path.realpath(REPO) == '/repo' else os.path.join('/tmp', 'verif-scratch-replays')
     os.makedirs(rdir, exist_ok=True)
     for i, v in enumerate(new[:MAX_REPORT]):
         path = os.path.join(rdir, '%s-%s-%d.json' % (prop, ctx.tier, i))
@@ -238,7 +238,7 @@ def finish(ctx, replay_prefix=None):
         'wall_s': round(ctx.elapsed(), 2),
         'violations': len(new),
     }
-    edir = os.path.join(VERIF, 'evidence')
+    edir = os.path.join(VERIF, 'evidence') if os.path.realpath(REPO) == '/repo' else os.path.join('/tmp', 'verif-scratch-evidence')
     os.makedirs(edir, exist_ok=True)
     with open(os.path.join(edir, '%s.json' % prop), 'w') as f:
         json.dump(ev, f, indent=1, sort_keys=True)
